@@ -49,6 +49,9 @@ def main(argv):
         st = ctx.db.stats()
         chk.analysed = dict(st, tree_digest=ctx.db.digest(), root=root)
         mod.run(ctx, chk, tier)
+        if tier == "thorough" and os.environ.get("VERIF_NO_SELFTEST") != "1":
+            from sa import selftest
+            selftest.run(pid, mod, chk, root)
 
     code = run_check(pid, tier, mod.LEVEL, body, seed)
     sys.stdout.flush()
